@@ -343,6 +343,31 @@ def _assigned_names(fn) -> dict:
 
 
 # ------------------------------------------------------------------------------------------------ B. _verify_signature
+def _record_of_call(val, tree):
+    """`helper(a1, …)` with `helper` a module-level function whose body is a single `return Cls(f1=e1, …)` / `return (e1, …)`:
+    -> {field or index: expression with the parameters replaced by the arguments}; None if `val` is not such a call"""
+    if not (isinstance(val, ast.Call) and isinstance(val.func, ast.Name) and not val.keywords):
+        return None
+    fn = next((n for n in tree.body if isinstance(n, ast.FunctionDef) and n.name == val.func.id), None)
+    if fn is None or fn.decorator_list or fn.args.vararg or fn.args.kwarg or len(fn.args.args) != len(val.args):
+        return None
+    body = _stmts(fn)
+    if len(body) != 1 or not isinstance(body[0], ast.Return) or body[0].value is None:
+        return None
+    ret = body[0].value
+    mapping = {a.arg: _norm(v) for a, v in zip(fn.args.args, val.args)}
+    import copy
+    if isinstance(ret, ast.Call) and isinstance(ret.func, ast.Name) and not ret.args and ret.keywords:
+        cls = next((n for n in tree.body if isinstance(n, ast.ClassDef) and n.name == ret.func.id), None)
+        if cls is None or not any(_norm(b) == "NamedTuple" for b in cls.bases) \
+                or any(isinstance(n, (ast.FunctionDef, ast.AsyncFunctionDef)) for n in cls.body):
+            return None            # only a plain NamedTuple without methods: field access returns what was stored
+        return {k.arg: _Subst(mapping).visit(copy.deepcopy(k.value)) for k in ret.keywords}
+    if isinstance(ret, ast.Tuple):
+        return {i: _Subst(mapping).visit(copy.deepcopy(e)) for i, e in enumerate(ret.elts)}
+    return None
+
+
 def translate_verify_signature(tree) -> str:
     fn = _func(tree, "_verify_signature", "EZPackOverlay")
     args = [a.arg for a in fn.args.args]
@@ -382,6 +407,14 @@ def translate_verify_signature(tree) -> str:
                 lets.append(f"    let {tgt}_ := {_slice_expr(val, int_env)}")
                 bytes_env[tgt] = f"{tgt}_"
                 continue
+            rec = _record_of_call(val, tree)
+            if rec is not None and rebound.get(tgt, 0) == 1:
+                # `parts = helper(data, len(key), n)` where the module-level helper only returns a record / tuple of
+                # slices of its arguments: every field is read as the slice expression with the arguments substituted
+                for fld, e in rec.items():
+                    lets.append(f"    let {tgt}_{fld}_ := {_slice_expr(e, int_env)}")
+                    bytes_env[f"{tgt}.{fld}"] = f"{tgt}_{fld}_"
+                continue
             raise TranslatorError(f"unsupported assignment in _verify_signature: {_norm(st)}")
         if isinstance(st, ast.Return):
             ret = st.value
@@ -396,6 +429,10 @@ def translate_verify_signature(tree) -> str:
     def bytes_term(e):
         if isinstance(e, ast.Name) and e.id in bytes_env:
             return bytes_env[e.id]
+        if isinstance(e, ast.Attribute) and _norm(e) in bytes_env:
+            return bytes_env[_norm(e)]
+        if isinstance(e, ast.Subscript) and isinstance(e.slice, ast.Constant) and f"{_norm(e.value)}.{e.slice.value}" in bytes_env:
+            return bytes_env[f"{_norm(e.value)}.{e.slice.value}"]
         if isinstance(e, ast.Name) and e.id == "data":
             return "data"
         return _slice_expr(e, int_env)
@@ -553,20 +590,73 @@ def translate_wrappers(tree) -> str:
 
 
 # ------------------------------------------------------------------------------------------------ D. packing
+def _returned_value(fn, sig_value: bool, where: str) -> str:
+    """What a straight-line function whose only branching is on its boolean parameter `sig` returns when `sig` has the given
+    value: assignments / augmented `+=` to locals are substituted symbolically, `if sig` / `if not sig` / `x if sig else y`
+    are decided, an early `return` ends the evaluation.  The result is the returned expression over the parameters."""
+    import copy
+    env: dict = {}
+
+    def subst(e):
+        e = copy.deepcopy(e)
+
+        class T(ast.NodeTransformer):
+            def visit_IfExp(self, n):  # noqa: N802
+                t = _norm(n.test)
+                if t in ("sig", "not sig"):
+                    return self.visit(n.body if (t == "sig") == sig_value else n.orelse)
+                return self.generic_visit(n)
+
+            def visit_Name(self, n):  # noqa: N802
+                if isinstance(n.ctx, ast.Load) and n.id in env:
+                    return copy.deepcopy(env[n.id])
+                return n
+        return ast.fix_missing_locations(T().visit(e))
+
+    def run(stmts):
+        for st in stmts:
+            if isinstance(st, ast.Assign) and len(st.targets) == 1 and isinstance(st.targets[0], ast.Name):
+                env[st.targets[0].id] = subst(st.value)
+            elif isinstance(st, ast.AnnAssign) and isinstance(st.target, ast.Name) and st.value is not None:
+                env[st.target.id] = subst(st.value)
+            elif isinstance(st, ast.AugAssign) and isinstance(st.target, ast.Name) and isinstance(st.op, ast.Add):
+                cur = env.get(st.target.id, ast.Name(st.target.id, ast.Load()))
+                env[st.target.id] = ast.BinOp(copy.deepcopy(cur), ast.Add(), subst(st.value))
+            elif isinstance(st, ast.If) and _norm(st.test) in ("sig", "not sig"):
+                r_ = run(st.body if (_norm(st.test) == "sig") == sig_value else st.orelse)
+                if r_ is not None:
+                    return r_
+            elif isinstance(st, ast.Return) and st.value is not None:
+                return _norm(ast.fix_missing_locations(subst(st.value)))
+            else:
+                raise TranslatorError(f"{where}: statement outside the translated subset: {_norm(st)[:100]}")
+        return None
+    out = run(_stmts(fn))
+    if out is None:
+        raise TranslatorError(f"{where}: no return value for sig={sig_value}")
+    return out
+
+
 def translate_pack(tree) -> str:
+    # what the two functions RETURN for sig = True / False must be these expressions over their parameters (however the body
+    # gets there: rebinding, `+=`, early return, conditional expression, renamed locals)
     fn = _func(tree, "_ez_pack", "EZPackOverlay")
-    st = [_norm(s) for s in _stmts(fn)]
-    want = ["packet = prefix + bytes([msg_num]) + self.serializer.pack_serializable_list(payloads)",
-            'if sig:\n    packet += default_eccrypto.create_signature(cast("PrivateKey", self.my_peer.key), packet)',
-            "return packet"]
-    if st != want:
-        raise TranslatorError(f"_ez_pack body outside the translated subset: {st}")
+    if [a.arg for a in fn.args.args] != ["self", "prefix", "msg_num", "payloads", "sig"]:
+        raise TranslatorError("_ez_pack parameters changed")
+    unsigned = "prefix + bytes([msg_num]) + self.serializer.pack_serializable_list(payloads)"
+    want_t = f'{unsigned} + default_eccrypto.create_signature(cast("PrivateKey", self.my_peer.key), {unsigned})'
+    got_t, got_f = _returned_value(fn, True, "_ez_pack"), _returned_value(fn, False, "_ez_pack")
+    if got_t != want_t or got_f != unsigned:
+        raise TranslatorError(f"_ez_pack body outside the translated subset: returns {got_t[:160]} / {got_f[:120]}")
     fn2 = _func(tree, "ezr_pack", "EZPackOverlay")
-    st2 = [_norm(s) for s in _stmts(fn2)]
-    want2 = ["if sig:\n    payloads = (BinMemberAuthenticationPayload(self.my_peer.public_key.key_to_bin()), *payloads)",
-             "return self._ez_pack(self.get_prefix(), msg_num, payloads, sig)"]
-    if st2 != want2:
-        raise TranslatorError(f"ezr_pack body outside the translated subset: {st2}")
+    if [a.arg for a in fn2.args.args] != ["self", "msg_num"] or not fn2.args.vararg or fn2.args.vararg.arg != "payloads":
+        raise TranslatorError("ezr_pack parameters changed")
+    want2_t = ("self._ez_pack(self.get_prefix(), msg_num, "
+               "(BinMemberAuthenticationPayload(self.my_peer.public_key.key_to_bin()), *payloads), sig)")
+    want2_f = "self._ez_pack(self.get_prefix(), msg_num, payloads, sig)"
+    g_t, g_f = _returned_value(fn2, True, "ezr_pack"), _returned_value(fn2, False, "ezr_pack")
+    if g_t != want2_t or g_f != want2_f:
+        raise TranslatorError(f"ezr_pack body outside the translated subset: returns {g_t[:160]} / {g_f[:120]}")
     return textwrap.dedent("""\
         /-- generated from EZPackOverlay._ez_pack: `packet = prefix + bytes([msg_num]) + pack(payloads)`,
             `if sig: packet += create_signature(my key, packet)` -/
@@ -626,12 +716,29 @@ def translate_on_packet() -> str:
         if any(isinstance(x, (ast.Return, ast.Raise)) for x in ast.walk(n)):
             raise TranslatorError("Community.on_packet: a return/raise precedes the prefix guard")
     disp = next((n for n in _stmts(fn) if isinstance(n, ast.If) and _norm(n.test) == "handler is not None"), None)
-    if disp is None or not isinstance(disp.body[0], ast.Try):
-        raise TranslatorError("Community.on_packet: handler call is not inside try/except")
-    tr = disp.body[0]
+    call_txt = "handler(source_address, data)"
+    if disp is not None and isinstance(disp.body[0], ast.Try):
+        tr = disp.body[0]
+    else:
+        # guard-clause form: `if handler is None: …; return` and then `self.<method>(handler, source_address, data)` as the
+        # last statement, where <method> of the same class starts with the try/except around the handler call
+        body = _stmts(fn)
+        guard = next((n for n in body if isinstance(n, ast.If) and _norm(n.test) == "handler is None" and not n.orelse
+                      and isinstance(n.body[-1], ast.Return) and n.body[-1].value is None), None)
+        last = body[-1]
+        m = re.fullmatch(r"self\.(\w+)\(handler, source_address, data\)", _norm(last)) if isinstance(last, ast.Expr) else None
+        if guard is None or m is None or body.index(guard) > body.index(last):
+            raise TranslatorError("Community.on_packet: handler call is not inside try/except")
+        helper = _func(tree, m.group(1), "Community")
+        hp = [a.arg for a in helper.args.args]
+        hb = _stmts(helper)
+        if len(hp) != 4 or len(hb) != 1 or not isinstance(hb[0], ast.Try):
+            raise TranslatorError(f"Community.{m.group(1)}: expected a single try/except around the handler call")
+        tr = hb[0]
+        call_txt = f"{hp[1]}({hp[2]}, {hp[3]})"
     if not any(h.type is not None and _norm(h.type) == "Exception" for h in tr.handlers):
         raise TranslatorError("Community.on_packet: `except Exception` around the handler call not found")
-    if "handler(source_address, data)" not in _norm(tr.body[0]):
+    if call_txt not in _norm(tr.body[0]):
         raise TranslatorError("Community.on_packet: handler is not called with (source_address, data)")
     names = _assigned_names(fn)
     if names.get("data", 0) != 1 or names.get("source_address", 0) != 1 or names.get("msg_id", 0) != 1 \
@@ -732,8 +839,18 @@ def check_crypto_and_peer() -> str:
             raise TranslatorError(f"ECCrypto.{name} changed: {_norm(_stmts(f2)[-1])}")
     ptree = ast.parse((REPO / "ipv8/peer.py").read_text())
     init = _func(ptree, "__init__", "Peer")
-    src = _norm(init)
-    if "self.key: Key = default_eccrypto.key_from_public_bin(key)" not in src or "self.public_key = self.key.pub()" not in src:
+    key_vals, pub_vals = [], []
+    for n in ast.walk(init):
+        tgt = n.targets[0] if isinstance(n, ast.Assign) and len(n.targets) == 1 else n.target if isinstance(n, ast.AnnAssign) else None
+        if tgt is not None and getattr(n, "value", None) is not None:
+            if _norm(tgt) == "self.key":
+                key_vals.append(_norm(n.value))
+            elif _norm(tgt) == "self.public_key":
+                pub_vals.append(_norm(n.value))
+    # every way `self.key` is bound: the parsed public key bin, or the Key object that was passed in (possibly cast)
+    if "default_eccrypto.key_from_public_bin(key)" not in key_vals \
+            or any(v not in ("default_eccrypto.key_from_public_bin(key)", "key", 'cast("Key", key)') for v in key_vals) \
+            or pub_vals != ["self.key.pub()"]:
         raise TranslatorError("Peer.__init__ no longer derives its key from key_from_public_bin(key) / key.pub()")
     return ("/-- checked structurally: ECCrypto.is_valid_signature is `try: return ec_key.verify(signature, data)` with\n"
             "    `return False` on any exception; Peer(bytes) parses with key_from_public_bin -/\n"
